@@ -3,6 +3,7 @@ package c11
 import (
 	"bytes"
 	"fmt"
+	"io"
 	"runtime/debug"
 	"strings"
 
@@ -18,6 +19,11 @@ type DstSpec struct {
 	Encrypt bool   `json:"encrypt"` // the cipher follows from the version (RC4-40, RC4-128, AES-128, AES-256)
 	Human   bool   `json:"human"`   // WriterOptions.HumanReadable
 	Seek    bool   `json:"seek"`    // seekable sink
+	// Open: the caller has a stream open on the target Writer while it copies
+	// (Writer.Put queues the copies); it is closed after the calls.
+	Open bool `json:"open,omitempty"`
+	// LatePut: stream values returned by Copy are put after all calls, last first.
+	LatePut bool `json:"lateput,omitempty"`
 }
 
 func (d DstSpec) enc() string {
@@ -180,6 +186,17 @@ func Execute(job *Job) (*Record, error) {
 	}
 	rootsRef := w.Alloc()
 	copier := pdf.NewCopier(w, &watchGetter{r: r, limit: 5000 + 500*len(src.Graph)})
+	var ctxStream io.WriteCloser
+	if job.Dst.Open {
+		ctxStream, err = w.OpenStream(w.Alloc(), pdf.Dict{"Type": pdf.Name("CallerStream")})
+		if err != nil {
+			return nil, fmt.Errorf("OpenStream: %v", err)
+		}
+		if _, err := ctxStream.Write([]byte("the caller's stream is open while it copies\n")); err != nil {
+			return nil, fmt.Errorf("stream Write: %v", err)
+		}
+	}
+	var late []latePut
 
 	var results []callResult
 	stop := map[int]bool{}
@@ -200,7 +217,7 @@ func Execute(job *Job) (*Record, error) {
 		if c.Op != "redirect" {
 			rec.RootVals = append(rec.RootVals, arg)
 		}
-		res, ev, outcome, msg, where := doCall(copier, w, r, c, arg, ren)
+		res, ev, outcome, msg, where := doCall(copier, w, r, c, arg, ren, job.Dst.LatePut, &late)
 		if outcome != "ok" {
 			rec.Outcome, rec.Msg, rec.where, rec.errText = outcome, fmt.Sprintf("%s: %s", c, msg), where, msg
 			return rec, nil
@@ -223,6 +240,19 @@ func Execute(job *Job) (*Record, error) {
 				err = fmt.Errorf("panic: %v", p)
 			}
 		}()
+		if ctxStream != nil {
+			if _, err := ctxStream.Write([]byte("and is closed afterwards\n")); err != nil {
+				return err
+			}
+			if err := ctxStream.Close(); err != nil {
+				return err
+			}
+		}
+		for i := len(late) - 1; i >= 0; i-- { // the caller puts the copied stream values, last first
+			if err := w.Put(late[i].ref, late[i].st); err != nil {
+				return err
+			}
+		}
 		if err := w.Put(rootsRef, arr); err != nil {
 			return err
 		}
@@ -310,7 +340,12 @@ func (g *watchGetter) Get(ref pdf.Reference, canObjStm bool) (pdf.Native, error)
 func pdfRef(n int) pdf.Reference { return pdf.NewReference(uint32(n%genBase), uint16(n/genBase)) }
 
 // doCall performs one top-level call and recovers a panic of the library.
-func doCall(copier *pdf.Copier, w *pdf.Writer, r *pdf.Reader, c Call, arg Val, ren func(int) int) (res callResult, ev Event, outcome, msg, where string) {
+type latePut struct {
+	ref pdf.Reference
+	st  *pdf.Stream
+}
+
+func doCall(copier *pdf.Copier, w *pdf.Writer, r *pdf.Reader, c Call, arg Val, ren func(int) int, latePuts bool, late *[]latePut) (res callResult, ev Event, outcome, msg, where string) {
 	defer func() {
 		if p := recover(); p != nil {
 			outcome, msg = "panic", fmt.Sprint(p)
@@ -354,7 +389,9 @@ func doCall(copier *pdf.Copier, w *pdf.Writer, r *pdf.Reader, c Call, arg Val, r
 		}
 		if st, ok := out.(*pdf.Stream); ok {
 			d := w.Alloc()
-			if err := w.Put(d, st); err != nil {
+			if latePuts {
+				*late = append(*late, latePut{d, st})
+			} else if err := w.Put(d, st); err != nil {
 				return res, ev, "error", "Put(copied stream): " + err.Error(), ""
 			}
 			res.rootElem, res.stream = d, true
